@@ -214,24 +214,17 @@ func (its *MongoCollections) purgeAllCollectionClients(ctx iface.OrdaContext, co
 
 // ---------------------------------------------------------------- collection numbers
 
-// GetNextCollectionNum: FindOneAndUpdate(_id == "collectionID", $inc num 1, upsert)
-// with the driver's default ReturnDocument=Before: when the counter document
-// does not exist it is created with num=1 and ErrNoDocuments is returned (the
-// code answers 1); otherwise the document as it was *before* the increment is
-// returned.
+// GetNextCollectionNum: FindOneAndUpdate(_id == "collectionID", $inc num 1, upsert,
+// ReturnDocument=After): the counter document is created with num=1 or
+// incremented, and the document as it is *after* the update is returned.
 func (its *MongoCollections) GetNextCollectionNum(ctx iface.OrdaContext) (int32, errors.OrdaError) {
 	err, done := its.begin(ctx, "GetNextCollectionNum")
 	if err != nil {
 		return 0, err
 	}
 	defer done()
-	if its.Counter == 0 {
-		its.Counter = 1
-		return 1, nil
-	}
-	before := its.Counter
 	its.Counter++
-	return before, nil
+	return its.Counter, nil
 }
 
 // ---------------------------------------------------------------- collections
